@@ -255,6 +255,7 @@ def run(ctx):
     _run_rules(ctx)
     from .. import boundaries
     boundaries.check(ctx, 'C05.RB', 'C05')
+    boundaries.check_guards(ctx, 'C05.RG', 'C05')
     boundaries.check_calls(ctx, 'C05.RC', 'C05')
     from . import C14
     C14.r7_no_loss(ctx, 'C05.R7', C14.REFUSAL_SLOT, floor=2)
